@@ -203,9 +203,14 @@ def run(spec):
         for sym, c in zip(spec['symbols'], centers):
             core += [(ck, ak, c) for ck, ak in zip(table[sym]['coeffs_s'], table[sym]['alphas_s'])]
         g = core + [tuple(x) for x in spec['gauss']]
-        V = solve_poisson_robust(mg, _rho(mg.points, g), inv, np.array(spec['atnums']), np.array(centers),
+        rho = _rho(mg.points, g)      # tabulated once; a caller keeps using this array
+        V = solve_poisson_robust(mg, rho, inv, np.array(spec['atnums']), np.array(centers),
                                  split2=spec.get('split2', False), **kw)
         err = float(np.max(np.abs(V(pts) - _ref(pts, g))))
+        # the same tabulated density solved again (other split option): must still be the potential of rho
+        V2 = solve_poisson_robust(mg, rho, inv, np.array(spec['atnums']), np.array(centers),
+                                  split2=not spec.get('split2', False), **kw)
+        err = max(err, float(np.max(np.abs(V2(pts) - _ref(pts, g)))))
         if not spec['gauss']:
             return err, spec['exact_core_atol'], 'robust solver on its own core model vs analytic core potential'
         return err, spec['atol_unit'] * sum(abs(c) for c, _, _ in g), 'robust solver vs analytic potential'
